@@ -76,11 +76,12 @@ Print Assumptions C06_table_without_columns.
 From PyDBML Require Import Tools PP Actions GenClasses GenGrammar Entry ContainerInv ContainerFull TableInv BuildInv BuildRules.
 
 (* Whatever else the document contains — any enums, other tables, indexes, references, groups, notes, in any order —
-   if two of its table blueprints have the same schema and name, the build never returns a database (side condition D36). *)
+   if two of its table blueprints share a key ([bp_keys]: schema.name and, if present, the alias) — the same schema and name, the
+   same alias, or the alias of one equal to the full name of the other — the build never returns a database (side condition D36). *)
 Theorem C06_document_with_duplicate_table_never_builds :
   forall s allow sq dq h0 h1 dd l1 bp1 l2 bp2 l3 nm,
     WW h0 -> (forall t tb, h_table h0 t = Some tb -> NoDup (names_of tb)) -> Forall good_table_bp (ps_tables s) ->
-    ps_tables s = l1 ++ bp1 :: l2 ++ bp2 :: l3 -> bp_full bp1 = Some nm -> bp_full bp2 = Some nm ->
+    ps_tables s = l1 ++ bp1 :: l2 ++ bp2 :: l3 -> In nm (bp_keys bp1) -> In nm (bp_keys bp2) ->
     build_database s allow sq dq h0 <> (h1, Ok dd).
 Proof. exact build_database_rejects_duplicate_tables. Qed.
 Print Assumptions C06_document_with_duplicate_table_never_builds.
@@ -89,7 +90,35 @@ Theorem C06_source_with_duplicate_table_never_parses :
   forall source allow sq dq h0 h1 d st l1 bp1 l2 bp2 l3 nm,
     WW h0 -> (forall t tb, h_table h0 t = Some tb -> NoDup (names_of tb)) ->
     blueprints_of source allow h0 = (h0, Ok st) -> Forall good_table_bp (ps_tables st) ->
-    ps_tables st = l1 ++ bp1 :: l2 ++ bp2 :: l3 -> bp_full bp1 = Some nm -> bp_full bp2 = Some nm ->
+    ps_tables st = l1 ++ bp1 :: l2 ++ bp2 :: l3 -> In nm (bp_keys bp1) -> In nm (bp_keys bp2) ->
     parser_parse source allow sq dq h0 <> (h1, Ok d).
 Proof. exact parser_rejects_duplicate_tables. Qed.
 Print Assumptions C06_source_with_duplicate_table_never_parses.
+
+(* the same for enums: two enum blueprints with the same schema and name *)
+Theorem C06_document_with_duplicate_enum_never_builds :
+  forall s allow sq dq h0 h1 dd l1 bp1 l2 bp2 l3 key,
+    WW h0 -> (forall t tb, h_table h0 t = Some tb -> NoDup (names_of tb)) ->
+    ps_enums s = l1 ++ bp1 :: l2 ++ bp2 :: l3 -> bp_enum_key bp1 = Some key -> bp_enum_key bp2 = Some key ->
+    build_database s allow sq dq h0 <> (h1, Ok dd).
+Proof. exact build_database_rejects_duplicate_enums. Qed.
+Print Assumptions C06_document_with_duplicate_enum_never_builds.
+
+(* and for table groups: two group blueprints with the same name *)
+Theorem C06_document_with_duplicate_group_never_builds :
+  forall s allow sq dq h0 h1 dd l1 bp1 l2 bp2 l3 key,
+    WW h0 -> (forall t tb, h_table h0 t = Some tb -> NoDup (names_of tb)) -> Forall good_table_bp (ps_tables s) ->
+    ps_groups s = l1 ++ bp1 :: l2 ++ bp2 :: l3 -> bp_group_key bp1 = Some key -> bp_group_key bp2 = Some key ->
+    build_database s allow sq dq h0 <> (h1, Ok dd).
+Proof. exact build_database_rejects_duplicate_groups. Qed.
+Print Assumptions C06_document_with_duplicate_group_never_builds.
+
+(* a reference (standalone or inline, any position) naming a table under a name that no table blueprint provides — neither
+   as an alias or bare key nor as schema.name — never builds: the table index only ever holds keys of table blueprints *)
+Theorem C06_document_with_reference_to_unknown_table_never_builds :
+  forall s allow sq dq h0 h1 dd l1 rb l2,
+    WW h0 -> (forall t tb, h_table h0 t = Some tb -> NoDup (names_of tb)) -> Forall good_table_bp (ps_tables s) ->
+    ps_refs s = l1 ++ rb :: l2 -> ref_names_missing (flat_map bp_keys (ps_tables s)) rb ->
+    build_database s allow sq dq h0 <> (h1, Ok dd).
+Proof. exact build_database_rejects_unknown_table. Qed.
+Print Assumptions C06_document_with_reference_to_unknown_table_never_builds.
